@@ -33,6 +33,23 @@ def handle (j : Json) : R Json := do
     | none => none
     | some i => (W.log[i]?).bind World.targetCommit
   let tree := W.treeOf fc
+  -- the rule the prediction relied on (the one that is one principal short), from the model of the
+  -- prediction; none when it cannot be determined (then any consulted rule counts)
+  let needRule : Option String := match P? with
+    | none => none
+    | some P =>
+      match World.approvalsFor cv P A target frm tree with
+      | .error _ => none
+      | .ok ap =>
+        match W.verifyObject cv P ("git:" ++ target) none none ap { mergeable := true } with
+        | .ok (name, true) => some name
+        | _ => none
+  let eligibleFor (s : Option Nat) : Bool := match s, P? with
+    | some k, some P =>
+      (match needRule with
+       | some rule => W.recorderEligibleFor P A target frm tree rule k
+       | none => W.recorderEligible P A target frm tree k)
+    | _, _ => false
   let mut spec := true
   let mut badCands : Array Json := #[]
   for (s, v) in cands do
@@ -41,9 +58,7 @@ def handle (j : Json) : R Json := do
     if mv != iv then
       agree := false
       notes := notes.push (Json.mkObj [("signer", match s with | some k => (k : Json) | none => Json.null), ("model", mv), ("impl", v.cls)])
-    let eligible := match s, P? with
-      | some k, some P => W.recorderEligible P A target frm tree k
-      | _, _ => false
+    let eligible := eligibleFor s
     let okHere :=
       if !implOk then !iv
       else if !implNeed then iv
@@ -66,11 +81,7 @@ def handle (j : Json) : R Json := do
       -- F28: an authorization envelope carrying no signature at all makes the prediction fail hard
       finding := some "F28"
     else if implOk && implNeed && verdict cv none &&
-        cands.all (fun (s, v) =>
-          let eligible := match s, P? with
-            | some k, some P => W.recorderEligible P A target frm tree k
-            | _, _ => false
-          (v.cls == "ok") || !eligible) &&
+        cands.all (fun (s, v) => (v.cls == "ok") || !eligibleFor s) &&
         (match j.getObjVal? "open" with
          | .ok o => (strList o).toOption.getD [] |>.contains "F66"
          | .error _ => true) then
